@@ -82,6 +82,12 @@ class Ctx:
                     break
             if scope is None or not bad or self.pid in scope:
                 self.problems.append(('translator', out.strip()))
+        # shapes of bump_pool.rs the pool model relies on (C19)
+        rc6, out6, _ = sh([sys.executable, os.path.join(VERIF, 'tools', 'poolsites.py'), REPO, os.path.join(COQ, 'gen')])
+        if self.pid == 'C19':
+            self.say('translator:', out6.strip())
+            if rc6 != 0:
+                self.problems.append(('translator', out6.strip()))
         # character-boundary assertions of the string operations (C09)
         rc5, out5, _ = sh([sys.executable, os.path.join(VERIF, 'tools', 'strsites.py'), REPO, os.path.join(COQ, 'gen')])
         if self.pid == 'C09':
